@@ -26,3 +26,10 @@ Proof. vm_compute. reflexivity. Qed.
 
 Lemma errors_model_matches_code_l : forallb check_case errors_graph = true.
 Proof. vm_compute. reflexivity. Qed.
+
+(* the enabled-decoder table of httpContentDecompressor for every subset of the compression names, in two orders *)
+Lemma decoders_graph_complete_l : (length decoders_graph = 1736)%nat.
+Proof. vm_compute. reflexivity. Qed.
+
+Lemma decoders_model_matches_code_l : forallb check_case decoders_graph = true.
+Proof. vm_compute. reflexivity. Qed.
